@@ -11,6 +11,7 @@ import (
 
 func init() {
 	vRegister("vC47_history", vC47_history)
+	vRegister("vC47_step", vC47_step)
 	vRegister("vC47_buckets", vC47_buckets)
 	vRegister("vC47_sanitize", vC47_sanitize)
 	vRegister("vC47_probes", vC47_probes)
@@ -252,6 +253,165 @@ func vC47_history() {
 	}
 	if vC47_m.state == HalfOpen {
 		vCover("half-open")
+	}
+	vCover("end")
+}
+
+// ---------------------------------------------------------------------------------------------
+// one call from an ARBITRARY breaker state (inductive step): any state, any open deadline, any number of probe
+// tokens held by other in-flight calls, any ring contents satisfying the representation invariant of vC47_buckets.
+// The expected behaviour is written directly from the property (per-bucket semantics), not via the event-log model.
+// ---------------------------------------------------------------------------------------------
+func vC47_step() {
+	n := vCase("buckets")
+	dur := int64(vCase("bucketNanos"))
+	max := vCase("halfOpenMax")
+	rate := vNondetFloat64("failureRate")
+	vAssume(rate >= 0 && rate <= 1)
+	minReq := vNondetInt("minRequests")
+	vAssume(minReq >= 1 && minReq <= 8)
+	openTimeout := vNondetInt64("openTimeout")
+	vAssume(openTimeout > 0 && openTimeout < 1<<40)
+	vC47_now = 0
+	b := NewCircuitBreaker(WithFailureRate(rate), WithMinRequests(minReq), WithOpenTimeout(time.Duration(openTimeout)),
+		WithWindow(time.Duration(dur*int64(n)), n), WithHalfOpenMaxCalls(max), WithClock(vC47_clock))
+	// arbitrary pre-state
+	bw := b.buckets
+	cursor := vNondetInt("cursor")
+	vAssume(cursor >= 0 && cursor < n)
+	last := vNondetInt64("lastUpdate")
+	vAssume(last >= 0 && last < 1<<40)
+	bw.cursor, bw.lastUpdate = cursor, last
+	var succOf, failOf [3]uint64
+	for j := 0; j < n; j++ {
+		i := ((cursor-j)%n + n) % n
+		s, f := vNondetUint64("succ"), vNondetUint64("fail")
+		vAssume(s <= 1 && f <= 1)
+		bw.buf[i] = bucket{succ: s, fail: f, start: last - int64(j)*dur}
+		succOf[j], failOf[j] = s, f // j buckets back in time
+	}
+	st := State(vChoose("state", 3))
+	until := vNondetInt64("openUntil")
+	vAssume(until >= 0 && until < 1<<41)
+	held := vNondetInt("tokensHeld")
+	vAssume(held >= 0 && held <= max)
+	b.state.Store(int32(st))
+	b.openUntil.Store(until)
+	for i := 0; i < max; i++ {
+		if i < held {
+			b.semCh <- struct{}{}
+		}
+	}
+	now0 := vNondetInt64("now")
+	vAssume(now0 >= last && now0 < 1<<41)
+	vC47_now = now0
+	ctx := &vC47Ctx{}
+	doneBefore := vNondetBool("ctxDoneBefore")
+	if doneBefore {
+		ctx.err = context.Canceled
+	}
+	outcome := vChoose("outcome", 3)
+	ran := false
+	got, err := b.Execute(ctx, func(c context.Context) (any, error) {
+		ran = true
+		vC47_advance("callDuration")
+		switch outcome {
+		case 0:
+			return 7, nil
+		case 1:
+			return nil, vC47_errFn
+		default:
+			ctx.err = context.Canceled
+			return nil, vC47_errFn
+		}
+	})
+	now1 := vC47_now
+
+	// ---- expected behaviour
+	wantRun, reanchored := false, false
+	postState, postUntil := st, until
+	if !doneBefore {
+		switch st {
+		case Closed:
+			wantRun = true
+		case Open:
+			if now0 >= until {
+				postState, reanchored = HalfOpen, true
+				wantRun = held < max
+			}
+		default:
+			wantRun = held < max
+		}
+	}
+	recorded := wantRun && outcome != 2
+	var ws, wf uint64
+	if recorded {
+		if !reanchored {
+			steps := (now1 - last) / dur
+			for j := 0; j < n; j++ {
+				if int64(j)+steps < int64(n) {
+					ws += succOf[j]
+					wf += failOf[j]
+				}
+			}
+		}
+		if outcome == 0 {
+			ws++
+		} else {
+			wf++
+		}
+		if total := ws + wf; total >= uint64(minReq) {
+			if float64(wf)/float64(total) >= rate {
+				if postState != Open {
+					postState, postUntil = Open, now1+openTimeout
+					vCover("opened")
+				}
+			} else if postState == HalfOpen {
+				postState = Closed
+				ws, wf = 0, 0
+				vCover("closed-again")
+			}
+		}
+	}
+
+	vAssert(ran == wantRun, "a call is admitted exactly when: closed; or half-open (also: open past its timeout) with a free probe slot")
+	if st == Open && now0 < until && !doneBefore {
+		vAssert(!ran && err == error(ErrOpen) && got == nil && b.State() == Open && b.openUntil.Load() == until, "while open and before the open timeout every call is rejected with ErrOpen and nothing changes")
+		vCover("rejected-open")
+	}
+	if !wantRun {
+		if doneBefore {
+			ce, isErr := err.(*Error)
+			vAssert(isErr && ce.Type == ErrorTypeTimeout && got == nil, "a call whose context is already done is not run and reports a timeout-type error")
+		} else {
+			vAssert(err == error(ErrOpen) && got == nil, "a rejected call reports ErrOpen")
+			if st != Open || now0 >= until {
+				vCover("rejected-no-probe-slot")
+			}
+		}
+	} else {
+		switch outcome {
+		case 0:
+			v, ok := got.(int)
+			vAssert(err == nil && ok && v == 7, "a successful call returns the function's value")
+		case 1:
+			vAssert(err == vC47_errFn, "a failed call returns the function's error")
+		default:
+			vAssert(err == vC47_errFn, "a cancelled call returns the function's error")
+			vCover("cancelled-not-recorded")
+		}
+	}
+	vAssert(b.State() == postState, "the breaker opens exactly when the window holds >= minRequests outcomes with failure rate >= threshold, closes when a half-open sample is below it, and otherwise keeps its state")
+	if postState == Open {
+		vAssert(b.openUntil.Load() == postUntil, "the open period ends openTimeout after the transition to open (and is not extended while open)")
+	}
+	vAssert(len(b.semCh) == held, "the probe token is returned (tokens held by other calls are untouched)")
+	if recorded || reanchored {
+		gs, gf := bw.totalsLocked()
+		vAssert(gs == ws && gf == wf, "the window holds exactly the outcomes of the buckets still inside it (none after a transition to half-open / closed) plus the new one")
+	}
+	if reanchored {
+		vCover("half-open-entered")
 	}
 	vCover("end")
 }
